@@ -2,6 +2,7 @@ package props
 
 import (
 	"fmt"
+	"runtime"
 	"sort"
 	"strings"
 	"time"
@@ -277,15 +278,18 @@ func genCTxn(src sim.Source, cw *concWorld, nextTag *int) *CTxn {
 		*nextTag++
 		t.Ops = append(t.Ops, genWriteCOp(src, len(cw.keys), *nextTag))
 	}
-	switch e := src.Intn("end", 10); {
+	switch e := src.Intn("end", 12); {
 	case e < 6:
 		t.End, t.EndAt = "commit", n
 	case e < 8:
 		t.End, t.EndAt = "abort", src.Intn("endat", n+1)
 	case e < 9:
 		t.End, t.EndAt = "error", src.Intn("endat", n+1)
-	default:
+	case e < 11:
 		t.End, t.EndAt = "panic", src.Intn("endat", n+1)
+	default:
+		// the task's goroutine leaves through runtime.Goexit inside the transaction (nothing later in its program runs)
+		t.End, t.EndAt = "goexit", src.Intn("endat", n+1)
 	}
 	if !t.Managed && t.End == "error" {
 		t.End = "abort"
@@ -414,12 +418,23 @@ func tagOrZero(r *fox.Route) int {
 }
 
 // execTxn runs a write transaction program. Injected panics are recovered here; any other panic propagates.
-func (cw *concWorld) execTxn(s *sim.Sched, t *CTxn) (out COut) {
+func (cw *concWorld) execTxn(s *sim.Sched, t *CTxn) COut {
+	var out COut
+	cw.execTxnInto(s, t, &out)
+	return out
+}
+
+// execTxnInto fills *out as it goes, so that the caller can still record the operation when the goroutine leaves through
+// runtime.Goexit in the middle of it.
+func (cw *concWorld) execTxnInto(s *sim.Sched, t *CTxn, out *COut) {
 	body := func(txn *fox.Txn) error {
 		for i, op := range t.Ops {
 			if i == t.EndAt && t.End != "commit" {
 				if t.End == "panic" {
 					panic(injectedPanic{i})
+				}
+				if t.End == "goexit" {
+					runtime.Goexit()
 				}
 				return errInjected
 			}
@@ -442,6 +457,9 @@ func (cw *concWorld) execTxn(s *sim.Sched, t *CTxn) (out COut) {
 			if t.End == "panic" {
 				panic(injectedPanic{len(t.Ops)})
 			}
+			if t.End == "goexit" {
+				runtime.Goexit()
+			}
 			return errInjected
 		}
 		return nil
@@ -456,7 +474,7 @@ func (cw *concWorld) execTxn(s *sim.Sched, t *CTxn) (out COut) {
 	if t.Managed {
 		err := cw.w.R.Updates(body)
 		out.Done = err == nil
-		return out
+		return
 	}
 	txn := cw.w.R.Txn(true)
 	defer txn.Abort()
@@ -464,7 +482,6 @@ func (cw *concWorld) execTxn(s *sim.Sched, t *CTxn) (out COut) {
 		txn.Commit()
 		out.Done = true
 	}
-	return out
 }
 
 // runProgram executes a task's program, recording invoke/return stamps.
@@ -497,6 +514,19 @@ func (cw *concWorld) runProgram(s *sim.Sched, client int, prog []COp, log *taskL
 		case "view":
 			rec.Out = cw.execView(s, op)
 		case "txn":
+			if op.Txn.End == "goexit" {
+				// the task ends inside this operation: record it from a deferred function
+				out := &COut{}
+				func() {
+					defer func() {
+						rec.Out = *out
+						rec.Ret = s.Stamp()
+						log.ops = append(log.ops, rec)
+					}()
+					cw.execTxnInto(s, op.Txn, out)
+				}()
+				return // not reached: Goexit unwinds the whole task
+			}
 			rec.Out = cw.execTxn(s, op.Txn)
 		default:
 			rec.Out = cw.execRead(s, cw.w.R, op)
